@@ -337,6 +337,23 @@ func (c *c04) values() []c04Val {
 	elem("[{}][0]", "{fa")
 	elem("[{a:1}][0]", "{fn")
 	_ = ls
+	// variables declared by inference (`v := <constant>`): a variable of the inferred type, never a
+	// constant again — neither alone nor inside a literal, whatever the initialiser was (also an empty
+	// literal, whose type is only fixed by the inference)
+	for _, k := range consts {
+		w := fixedW(c.ask("infer " + k.W))
+		if strings.HasPrefix(w, "ERR") || w == "" {
+			continue
+		}
+		v := c04Val{Kind: "variable", Prelude: "v := " + k.Src + "\n", Src: "v", W: w}
+		add(v)
+		add(c.arrLit(v))
+		add(c.mapLit(v))
+		add(c.arrLit(v, v))
+		add(c.arrLit(v, c.arrLit(num)))
+		add(c.arrLit(c.arrLit(num), v))
+		add(c.mapLit(v, c.mapLit(num)))
+	}
 	// a call of a function without a result is not a value: rejected in every position, also inside literals
 	proc := c04Val{Kind: "variable", Prelude: "func p0\n    print 1\nend\n", Src: "(p0)", W: ""}
 	add(proc)
